@@ -9,16 +9,6 @@ variable {α : Type}
 
 /-! ### what a holder denotes -/
 
-/-- The tensor shape of a holder. -/
-def Holder.shape : Holder α → List Nat
-  | .dense T => T.shape
-  | .sparse S => S.shape
-  | .kruskal K => K.shape
-  | .tucker T => T.shape
-  | .sum P => (P.headD (.dense ⟨[], []⟩)).shape
-  | .tenmat M => M.tshape
-  | .sptenmat M => M.tshape
-
 /-- The array a holder denotes. -/
 def Holder.get [Add α] [Mul α] [One α] [Zero α] : Holder α → List Nat → α
   | .dense T, i => T.get i
